@@ -5,11 +5,11 @@
 (* values, fired rewrites.  One state per observation; TLC evaluates the   *)
 (* verdict operator of the L1 module the observation belongs to.           *)
 (***************************************************************************)
-EXTENDS TaskGraph, Collection, Optimizer, MapBlocksInfo, Json, IOUtils, TLCExt
+EXTENDS TaskGraph, Collection, Optimizer, MapBlocksInfo, SourceIO, Json, IOUtils, TLCExt
 Cases == ndJsonDeserialize(IOEnv.CASES)
 VARIABLE i
-Init == i = 0 /\ g = Chain3 /\ st = S0 /\ om = M0("n") /\ mbsnap = <<>> /\ mbseen = {}
-Next == i < Len(Cases) /\ i' = i + 1 /\ UNCHANGED <<g, st, om, mbsnap, mbseen>>
+Init == i = 0 /\ g = Chain3 /\ st = S0 /\ om = M0("n") /\ mbsnap = <<>> /\ mbseen = {} /\ iophase = "constructing" /\ ioreads = {}
+Next == i < Len(Cases) /\ i' = i + 1 /\ UNCHANGED <<g, st, om, mbsnap, mbseen, iophase, ioreads>>
 
 Verdict(c) ==
   CASE c.fn = "graph"   -> GraphVerdict(c)
@@ -23,6 +23,8 @@ Verdict(c) ==
     [] c.fn = "rechunk_spec" -> RechunkSpecVerdict(c)
     [] c.fn = "unknown" -> UnknownVerdict(c)
     [] c.fn = "entry" -> EntryVerdict(c)
+    [] c.fn = "io" -> IOVerdict(c)
+    [] c.fn = "store" -> StoreVerdict(c)
     [] c.fn = "block_info" -> (IF BlockInfoVerdict(c) # "ok" THEN BlockInfoVerdict(c)
                                ELSE IF c.got.kind = "raised" THEN "ok-computation-raised"
                                ELSE IF ~SameValue(c.got, c.expect) THEN "map-blocks-value-differs" ELSE "ok")
